@@ -59,6 +59,7 @@ const (
 	kUIDMove    = "UID MOVE"
 	kFetch      = "FETCH"
 	kUIDFetch   = "UID FETCH"
+	kFetchBody  = "FETCH-BODY" // FETCH i (UID BODY[]): not PEEK, so the server sets \Seen and owes every session a flag update
 	kSearchAll  = "SEARCH ALL"
 	kSearchDel  = "SEARCH DELETED"
 	kUIDSearch  = "UID SEARCH"
@@ -105,6 +106,8 @@ func (o op) wire(tag string) string {
 		return fmt.Sprintf("%s %s %s %s\r\n", tag, o.K, o.Set, mbName[o.MB])
 	case kFetch, kUIDFetch:
 		return fmt.Sprintf("%s %s %s FLAGS\r\n", tag, o.K, o.Set)
+	case kFetchBody:
+		return fmt.Sprintf("%s FETCH %s (UID BODY[])\r\n", tag, o.Set)
 	case kSearchAll, kSearchDel:
 		return fmt.Sprintf("%s %s\r\n", tag, o.K)
 	case kUIDSearch:
@@ -138,7 +141,7 @@ func (o op) class() string {
 // noExpunge: commands during which RFC 9051 §7.5.1 (and the property) forbid EXPUNGE responses.
 func (o op) noExpunge() bool {
 	switch o.K {
-	case kFetch, kStoreAdd, kStoreDel, kSearchAll, kSearchDel:
+	case kFetch, kFetchBody, kStoreAdd, kStoreDel, kSearchAll, kSearchDel:
 		return true
 	}
 	return false
@@ -335,7 +338,7 @@ func (st *state) targets(o op) [2][]uint32 {
 	case kUIDFetch:
 		t := uidsOf(st.MB[s.Sel])
 		return [2][]uint32{t, t}
-	case kStoreAdd, kStoreDel, kCopy, kMove, kFetch:
+	case kStoreAdd, kStoreDel, kCopy, kMove, kFetch, kFetchBody:
 		return [2][]uint32{st.resolveSeq(o.S, o.Set, len(s.View)), st.resolveSeq(o.S, o.Set, len(st.MB[s.Sel]))}
 	}
 	return [2][]uint32{}
@@ -351,6 +354,25 @@ func (st *state) setDel(m int, si int, tg []uint32, del bool) {
 		for j := range st.S {
 			if j != si && st.S[j].Sel == m {
 				st.S[j].Pend = append(st.S[j].Pend, pev{'F', x.UID, del})
+			}
+		}
+	}
+}
+
+// markSeen is the effect of a non-PEEK body fetch by session si on the messages tg (all of them
+// announced to si, live): \Seen is set (not modelled: the model's flag state is \Deleted alone) and
+// EVERY session that has the mailbox selected, the fetching one included, is owed one flag
+// notification per message (imapmemserver queues it with source nil). The fetching session gets
+// its own at the end of the command unless a removed message is still owed to it (FETCH must not
+// send EXPUNGE, so everything queued behind it is held back too).
+func (st *state) markSeen(m int, tg []uint32) {
+	for _, x := range st.MB[m] {
+		if !hasU(tg, x.UID) {
+			continue
+		}
+		for j := range st.S {
+			if st.S[j].Sel == m {
+				st.S[j].Pend = append(st.S[j].Pend, pev{'F', x.UID, x.Del})
 			}
 		}
 	}
@@ -572,6 +594,8 @@ type stepStats struct {
 	nonOK                                     int64
 	probes                                    int64
 	heldBack                                  int64
+	bodyFetches, bodyFetchStale               int64
+	seenUpdatesOwn, seenUpdatesOthers         int64
 }
 
 func (a *stepStats) add(b *stepStats) {
@@ -589,6 +613,10 @@ func (a *stepStats) add(b *stepStats) {
 	a.nonOK += b.nonOK
 	a.probes += b.probes
 	a.heldBack += b.heldBack
+	a.bodyFetches += b.bodyFetches
+	a.bodyFetchStale += b.bodyFetchStale
+	a.seenUpdatesOwn += b.seenUpdatesOwn
+	a.seenUpdatesOthers += b.seenUpdatesOthers
 }
 
 // judge applies command o (already executed on the wire: resps, closed, probe) to st and checks
@@ -697,6 +725,19 @@ func judge(st *state, o op, resps []srvkit.Resp, closed bool, pr *probeResult, l
 	case kFetch, kUIDFetch:
 		for _, u := range st.targets(o)[1] {
 			own[u] = true
+		}
+	case kFetchBody:
+		// (a single sequence number: no "*", both readings agree)
+		tg := st.targets(o)[0]
+		for _, u := range tg {
+			own[u] = true
+		}
+		st.markSeen(s.Sel, tg)
+		if len(tg) > 0 {
+			ss.bodyFetches++
+			if s.countPend('X') > 0 {
+				ss.bodyFetchStale++
+			}
 		}
 	}
 	s = &st.S[o.S]
@@ -833,6 +874,13 @@ func judge(st *state, o op, resps []srvkit.Resp, closed bool, pr *probeResult, l
 				s.Slots[n-1] = uid
 				if flagUpdate(uid, del) {
 					updates++
+					if strings.Contains(strings.ToUpper(r.Text), "\\SEEN") {
+						if o.K == kFetchBody {
+							ss.seenUpdatesOwn++
+						} else {
+							ss.seenUpdatesOthers++
+						}
+					}
 				}
 			}
 		case kind == "SEARCH":
@@ -1132,6 +1180,9 @@ func enabled(st *state, cfg config) []op {
 			ops = append(ops, op{S: si, K: kFetch, Set: n})
 		}
 		ops = append(ops, op{S: si, K: kFetch, Set: "1:*"})
+		for _, n := range nums {
+			ops = append(ops, op{S: si, K: kFetchBody, Set: n})
+		}
 		ops = append(ops, op{S: si, K: kUIDFetch, Set: "1:*"})
 		ops = append(ops, op{S: si, K: kSearchAll}, op{S: si, K: kSearchDel}, op{S: si, K: kUIDSearch})
 		ops = append(ops, op{S: si, K: kNoop}, op{S: si, K: kIdle})
@@ -1543,7 +1594,8 @@ func main() {
 	}
 
 	// ---- evidence ----
-	if run.NumViolations() == 0 && (total.noExpWithPendingX == 0 || total.heldBack == 0 || total.staleCmd == 0 || total.expunge == 0 || total.noopAfterUpdates == 0 || total.idleLines == 0) {
+	if run.NumViolations() == 0 && (total.noExpWithPendingX == 0 || total.heldBack == 0 || total.staleCmd == 0 || total.expunge == 0 || total.noopAfterUpdates == 0 || total.idleLines == 0 ||
+		total.bodyFetchStale == 0 || total.seenUpdatesOwn == 0 || total.seenUpdatesOthers == 0) {
 		// (with violations the search is pruned and these counters mean nothing)
 		run.EngineError("vacuous run: %+v", total)
 	}
@@ -1578,6 +1630,10 @@ func main() {
 	run.Set("noop_reconstruction_checks", total.noopChecks)
 	run.Set("noop_checks_after_delivered_updates", total.noopAfterUpdates)
 	run.Set("star_on_stale_view_two_readings", total.starAmbiguous)
+	run.Set("body_fetches_setting_seen", total.bodyFetches)
+	run.Set("body_fetches_setting_seen_with_removed_message_owed", total.bodyFetchStale)
+	run.Set("seen_updates_delivered_to_the_fetching_session_at_once", total.seenUpdatesOwn)
+	run.Set("seen_updates_delivered_later_or_to_other_sessions", total.seenUpdatesOthers)
 	run.Set("probe_connections", total.probes)
 	run.Set("commands_not_completed_ok", total.nonOK)
 	obs := map[string]interface{}{}
